@@ -2069,8 +2069,10 @@ class DecayGroup(BaseDecayGroup, AmpBase):
     def temp_used_res(self, res):
         old_idx = self.chains_idx
         self.set_used_res(res)
-        yield
-        self.chains_idx = old_idx
+        try:
+            yield
+        finally:
+            self.chains_idx = old_idx
 
     def add_used_chains(self, used_chains):
         for i in used_chains:
